@@ -266,3 +266,25 @@ def gen_path(ctx, v):
             return e
         return [('P', root_only(gen_expr(ctx, v, v, 1)))]
     return [('R',)] + gen_steps(ctx, v, v)
+
+
+def escape_forms(ctx, n):
+    """names with backslash escapes for the hand-written scanners (check_escaped): plain and quoted, 4-digit and
+    braced unicode forms, simple escapes, cut short at every length"""
+    r = ctx.rng
+    out = []
+    hexd = '0123456789abcdefABCDEF'
+    for _ in range(n):
+        parts = []
+        for _ in range(r.choice([1, 1, 2, 3])):
+            c = r.random()
+            if c < 0.3:
+                parts.append('\\u' + ''.join(r.choice(hexd) for _ in range(r.choice([4, 4, 4, 3, 2, 5]))))
+            elif c < 0.5:
+                parts.append('\\u{' + ''.join(r.choice(hexd) for _ in range(r.choice([4, 4, 2, 5, 6]))) + r.choice(['}', '}', '']))
+            elif c < 0.65:
+                parts.append('\\' + r.choice('ntrbf/\\"ux0'))
+            else:
+                parts.append(r.choice(['a', 'b', 'xy', 'k1', '\u00e9', '_']))
+        out.append(''.join(parts))
+    return out
